@@ -30,7 +30,13 @@ def main(argv=None):
             raise core.Broken('cardutil imported from %s, not from %s' % (cardutil.__file__, core.REPO))
         if args.replay:
             rec = json.load(open(args.replay))
-            acc = mod.replay_case(rec['case'])
+            case = rec['case']
+            if isinstance(case, dict) and 'task_index' in case and hasattr(mod, 'tasks'):
+                ts = mod.tasks(case['tier'], case['seed'])
+                acc = core.safe_task(mod.run_task, prop, case['tier'], case['seed'])(
+                    (case['task_index'], ts[case['task_index']]))
+            else:
+                acc = mod.replay_case(case)
             if acc.violations:
                 for sig, (n, det) in sorted(acc.violations.items()):
                     print('VIOLATION property=%s replay=%s' % (prop, args.replay))
@@ -47,10 +53,17 @@ def main(argv=None):
             desc = mod.describe(args.tier, seed)
             tasks = mod.tasks(args.tier, seed)
             acc = core.Acc()
-            for r in core.pmap(mod.run_task, tasks):
+            for r in core.pmap(core.safe_task(mod.run_task, prop, args.tier, seed), list(enumerate(tasks))):
                 acc.merge(r)
             extra = {'tasks': len(tasks)}
-        return core.finish(mod, args.tier, seed, acc, desc, t0, replay_fn=mod.replay_case, extra_cov=extra)
+
+        def replay(case):
+            if isinstance(case, dict) and 'task_index' in case and hasattr(mod, 'tasks'):
+                ts = mod.tasks(case['tier'], case['seed'])
+                return core.safe_task(mod.run_task, prop, case['tier'], case['seed'])(
+                    (case['task_index'], ts[case['task_index']]))
+            return mod.replay_case(case)
+        return core.finish(mod, args.tier, seed, acc, desc, t0, replay_fn=replay, extra_cov=extra)
     except core.Broken as ex:
         print('BROKEN-CHECK property=%s: %s' % (prop, ex))
         return 2
